@@ -202,9 +202,15 @@ impl<L: LanguageChildren> LanguageChildren for Bind<L> {
 
     fn weak_shape_impl(&mut self, m: &mut (SlotMap, u32)) {
         let s = self.slot;
+        // the binder may shadow a free occurrence of the same name seen earlier in the node;
+        // that outer mapping is valid again after the binder's scope.
+        let outer = m.0.get(s);
         add_slot(&mut self.slot, m);
         self.elem.weak_shape_impl(m);
-        m.0.remove(s);
+        match outer {
+            Some(o) => m.0.insert(s, o),
+            None => m.0.remove(s),
+        }
     }
 }
 
